@@ -245,7 +245,7 @@ func (t *Tables) IsUnknownID(s string) bool {
 	return true
 }
 
-var unknownSeeds = []string{"FOO", "foo", "NOPE-1.0", "GPL", "GPL-9.9", "MITT", "M", "mi", "Apache", "Apache-2", "x.y", "-", ".", "0", "GPL-2.0-or", "later", "only", "MIT-or", "andor", "wITH", "aND", "oR", "LicenseRef", "DocumentRef", "licenseref-a", "documentref-a", "INVALID"}
+var unknownSeeds = []string{"FOO-or-later", "GPL-9.0-or-later", "Foo-only", "FOO", "foo", "NOPE-1.0", "GPL", "GPL-9.9", "MITT", "M", "mi", "Apache", "Apache-2", "x.y", "-", ".", "0", "GPL-2.0-or", "later", "only", "MIT-or", "andor", "wITH", "aND", "oR", "LicenseRef", "DocumentRef", "licenseref-a", "documentref-a", "INVALID"}
 
 func (t *Tables) DrawUnknown(rt *rapid.T, label string) string {
 	if rapid.IntRange(0, 2).Draw(rt, label+"Src") > 0 {
@@ -262,6 +262,10 @@ func (t *Tables) DrawUnknown(rt *rapid.T, label string) string {
 		}
 	}
 	s := rapid.StringMatching(`[A-Za-z0-9.-]{1,12}`).Draw(rt, label+"Gen")
+	if rapid.IntRange(0, 3).Draw(rt, label+"Suffixed") == 0 {
+		// an unknown id that carries one of the documented suffixes (the scanner then tries its base too)
+		s = strings.TrimRight(s, "-") + rapid.SampledFrom([]string{"-or-later", "-only", "-only-or-later"}).Draw(rt, label+"Suffix")
+	}
 	if t.IsUnknownID(s) {
 		return s
 	}
